@@ -13,8 +13,8 @@ STACK_API = ['path:stack::PushStack::*']
 MANIP = ['DUP', 'DDUP', 'POP', 'SWAP', 'ROT', 'YANK', 'YANKDUP', 'SHOVE', 'FLUSH', 'STACKDEPTH']
 STACK_TYPES = ['BOOLEAN', 'INTEGER', 'FLOAT', 'NAME', 'CODE', 'EXEC', 'BOOLVECTOR', 'INTVECTOR', 'FLOATVECTOR']
 C05_NAMES = ['%s.%s' % (t, m) for t in STACK_TYPES for m in MANIP]
-VEC_EXTERNAL_NOTE = ('COUNT, SUM, MEAN, SORT*ASC/DESC, REMOVE, BOOLINDEX and *SCALAR use iterator adapters / closures that Verus '
-                     'cannot translate: their bodies are external (listed under out_of_reach); bounded Kani stand-ins are listed under bounded_stand_ins when run')
+VEC_EXTERNAL_NOTE = ('FLOATVECTOR.SUM / MEAN (f32 iter().sum(): the additive identity and order are std\'s), SORT*ASC/DESC (slice::sort / sort_by) and INTVECTOR.REMOVE (Vec::retain) '
+                     'stay outside Verus: their bodies are external (listed under out_of_reach)')
 
 PROPS = {
     'C16': dict(
@@ -71,10 +71,11 @@ PROPS = {
     ),
     'C09': dict(
         level='proof',
-        units=['nameglob:BOOLVECTOR.*', 'nameglob:INTVECTOR.*', 'nameglob:FLOATVECTOR.*'] + STACK_API,
+        units=['nameglob:BOOLVECTOR.*', 'nameglob:INTVECTOR.*', 'nameglob:FLOATVECTOR.*', 'path:vector::BoolVector::*', 'path:vector::IntVector::*', 'path:vector::FloatVector::*'] + STACK_API,
         label_re=r'^C(09|05|07|06|13|10)',
         explanation='element-wise operations verified (loop invariant) against overlay(second, top, offset, op) of the README; GET/SET clamp; ONES/ZEROS/LENGTH/APPEND/EMPTY/FROMINT/EQUAL/ROTATE/CONTAINS/SET*INSERT/NOT rows; '
-                    'registry binding is part of each unit',
+                    'through the R9 desugaring of slice-iterator adapters: BOOLVECTOR.COUNT = number of TRUE elements, INTVECTOR.SUM = the wrapping sum, INTVECTOR.MEAN = that sum / length (f32), '
+                    'INTVECTOR.BOOLINDEX = the ascending indices of the TRUE elements, FLOATVECTOR.*SCALAR = element-wise product, BoolVector::from_int_array (no longer trusted); registry binding is part of each unit',
         not_decided=[VEC_EXTERNAL_NOTE, 'float element values are uninterpreted (which operation on which elements is proved)',
                      'SORT*ASC/DESC and REMOVE: std sort / Vec::retain did not finish in CBMC within 400 s even for length <= 2: undecided'],
         thorough=True,
@@ -160,10 +161,9 @@ PROPS = {
         units=['nameglob:GRAPH.*', 'path:buffer::PushBuffer::*', 'path:graph::Graph::*', 'path:graph::Node::*', 'path:graph::Edge::*'],
         explanation='Graph model (nodes: id -> Node, edges: destination -> incoming edges): wf = every node stored under its id, every edge connects two existing nodes, at most one edge per ordered pair; '
                     'wf is preserved by Graph::new / add_node / add_edge / set_state (proved) and is part of the state invariant every GRAPH.* row re-establishes; add_edge adds the edge exactly when both nodes exist and not twice; '
-                    'get_state / set_state / node_size against the map model; GRAPH.NODE*ADD / GETSTATE / SETSTATE / HISTORY / EDGE*ADD rows with values; the graph stack keeps its depth and only the newest graph may change '
+                    'get_state / set_state / node_size / get_weight / set_weight against the map model (weight_of = weight of the first incoming edge of the destination that starts at the origin; set_weight changes that edge only and keeps wf -- no longer a trusted contract); GRAPH.EDGE*GETWEIGHT / SETWEIGHT rows with values; GRAPH.NODE*ADD / GETSTATE / SETSTATE / HISTORY / EDGE*ADD rows with values; the graph stack keeps its depth and only the newest graph may change '
                     '(older snapshots untouched); DUP pushes a structural copy',
-        not_decided=['remove_node, remove_edge, get_weight, diff, edge_size, filter results and the neighbour / predecessor / successor queries use closures or HashMap iteration: bodies external or safety-only '
-                     '(set_weight is trusted with the assumed contract "only weights change")',
+        not_decided=['remove_node (HashMap::iter_mut), remove_edge (Vec::retain), diff, edge_size, filter results and the neighbour / predecessor / successor queries (HashMap iteration): bodies external or safety-only',
                      'the textual diff and GRAPH.EDGE*HISTORY (println!) are external'],
     ),
     'C19': dict(
